@@ -108,6 +108,13 @@ func c08Values() []interface{} {
 		[]interface{}{1.0, "a", nil}, []interface{}{[]interface{}{1.0}}, []interface{}{"abc"},
 		[]interface{}{map[string]interface{}{"a": 1.0}}, []interface{}{false},
 		map[string]interface{}{}, map[string]interface{}{"a": 1.0}, map[string]interface{}{"a": []interface{}{1.0}},
+		// structural equality of containers: null members, equal sizes with different keys, nesting
+		map[string]interface{}{"a": nil}, map[string]interface{}{"z": 5.0}, map[string]interface{}{"a": nil, "b": 1.0},
+		map[string]interface{}{"b": 1.0, "c": 2.0}, map[string]interface{}{"b": 1.0}, map[string]interface{}{"a": 1.0, "b": 1.0},
+		map[string]interface{}{"a": map[string]interface{}{"b": nil}}, map[string]interface{}{"a": map[string]interface{}{"c": 1.0}},
+		map[string]interface{}{"a": "1"}, map[string]interface{}{"a": []interface{}{}},
+		[]interface{}{map[string]interface{}{"a": nil}}, []interface{}{map[string]interface{}{"z": 5.0}},
+		[]interface{}{[]interface{}{1.0, nil}}, []interface{}{[]interface{}{nil, 1.0}}, []interface{}{nil}, []interface{}{nil, nil},
 	}
 }
 
